@@ -128,7 +128,7 @@ def faults(valid):
 # ------------------------------------------------------------------ running the real code
 def _imports():
     import pacti
-    assert os.path.realpath(pacti.__file__).startswith("/repo/src/"), pacti.__file__
+    assert os.path.realpath(pacti.__file__).startswith(os.path.realpath(os.environ.get("VERIF_REPO", "/repo")) + "/src/"), pacti.__file__
     from pacti.contracts import PolyhedralIoContract, PolyhedralIoContractCompound
     from pacti.terms.polyhedra.serializer import validate_contract_dict
     from pacti.utils import fileio
